@@ -210,12 +210,12 @@ def _succeeded_states(A: Analysis) -> Optional[Set[str]]:
     rets = [x for x in walk_local(m.node) if isinstance(x, ast.Return)]
     if len(rets) != 1:
         return None
-    e = rets[0].value
+    e = A.expand(rets[0].value, m)     # `state = self.state` read once into a local is the same value
     states: Set[str] = set()
 
     def term(x) -> bool:
         if isinstance(x, ast.Compare) and len(x.ops) == 1 and norm(x.left) in ("self.state", "self._state"):
-            if isinstance(x.ops[0], ast.Eq):
+            if isinstance(x.ops[0], ast.Eq) or (isinstance(x.ops[0], ast.Is) and A._enum_member(x.comparators[0])):
                 states.add(norm(x.comparators[0]).replace("OperationState.", ""))
                 return True
             if isinstance(x.ops[0], ast.In) and isinstance(x.comparators[0], (ast.Tuple, ast.List, ast.Set)):
@@ -691,7 +691,7 @@ def rule_ex9(A: Analysis, rep, F: ExecFacts):
               "_report_execution_results can return normally although an op did not succeed: [%s]" % " | ".join(fmt_conj(c) for c in guards))
     # the else branch ends in a raise of a stored error
     raises = [n for n in g.nodes if n.kind == "stmt" and isinstance(n.ast, ast.Raise)]
-    rep.check(any("stored_error" in norm(r.ast) for r in raises), "EX9", "raises the failure", fi.node,
+    rep.check(any(r.ast.exc is not None and "stored_error" in A.xtext(r.ast.exc, fi) for r in raises), "EX9", "raises the failure", fi.node,
               "the first failed op's error is raised", "no stored error is raised on failure", deep=False)
     # failed / skipped lists are filled by state
     fills = {}
@@ -846,23 +846,40 @@ def rule_terminate(A: Analysis, rep, rule: str):
             cdet = cdet or "an already reaped pid makes getpgid/killpg raise and abort the loop (no per-iteration handler)"
     hs = [h for h in walk_local(tp.node) if isinstance(h, ast.ExceptHandler)]
     ok_h = True
+    def expected_errno(a: str, ex_name: str) -> bool:
+        if a in ("eq(errno.ESRCH,%s.errno)" % ex_name, "eq(errno.ECHILD,%s.errno)" % ex_name):
+            return True
+        pre = "in(%s.errno," % ex_name
+        if a.startswith(pre) and a.endswith(")"):
+            nm = a[len(pre):-1]
+            els = A.const_elements(tp.module, nm)
+            if els is None and nm.startswith("("):
+                els = [x.strip() for x in nm.strip("()").split(",") if x.strip()]
+            return bool(els) and set(els) <= {"errno.ESRCH", "errno.ECHILD"}
+        return False
+
+    def swallowed(stmts, conds):
+        """Path conditions under which the handler body ends without raising (falls out, or `continue`s)."""
+        out = []
+        for i, st in enumerate(stmts):
+            if isinstance(st, ast.Raise):
+                return out
+            if isinstance(st, (ast.Continue, ast.Break, ast.Return)):
+                return out + conds
+            if isinstance(st, ast.If):
+                t_ = [c | d for c in conds for d in A.dnf(st.test, True, tp) if not any((a, not p_) in c for a, p_ in d)]
+                f_ = [c | d for c in conds for d in A.dnf(st.test, False, tp) if not any((a, not p_) in c for a, p_ in d)]
+                rest = stmts[i + 1:]
+                return out + swallowed(list(st.body) + rest, t_) + swallowed(list(st.orelse) + rest, f_)
+        return out + conds
     for h in hs:
-        d = [A.dnf(i.test, True, tp) for i in h.body if isinstance(i, ast.If)]
         reraises = any(isinstance(x, ast.Raise) for x in walk_local(h))
         if not reraises:
             ok_h = False
-        for dd in d:
-            atoms = {a for c in dd for a, _ in c}
-            for a in atoms:
-                if a in ("eq(errno.ESRCH,ex.errno)", "eq(errno.ECHILD,ex.errno)"):
-                    continue
-                if a.startswith("in(ex.errno,") and a.endswith(")"):
-                    nm = a[len("in(ex.errno,"):-1]
-                    els = A.const_elements(tp.module, nm)
-                    if els is None and nm.startswith("(") :
-                        els = [x.strip() for x in nm.strip("()").split(",") if x.strip()]
-                    if els is not None and set(els) <= {"errno.ESRCH", "errno.ECHILD"} and els:
-                        continue
+        exn = h.name or "ex"
+        for c in swallowed(list(h.body), [frozenset()]):
+            # an error is ignored only when it is one of the two expected ones
+            if not any(p_ and expected_errno(a, exn) for a, p_ in c):
                 ok_h = False
     for n in walk_local(tp.node):
         if isinstance(n, ast.With):
@@ -874,6 +891,8 @@ def rule_terminate(A: Analysis, rep, rule: str):
     conts = [c for c in walk_local(tp.node) if isinstance(c, ast.Continue)]
     ok_skip = True
     for c in conts:
+        if any(isinstance(a_, ast.ExceptHandler) for a_ in _ancestors(c)):
+            continue    # inside a handler: covered by the swallowed-paths condition above
         par = c._parent
         if not isinstance(par, ast.If):
             ok_skip = False
